@@ -104,6 +104,12 @@ def build(rng, kind):
     ej['Transceiver'].append({'type_variety': TRX, 'frequency': {'min': 191.35e12, 'max': 196.1e12}, 'mode': modes})
     tj, _ = G.gen_topology(rng, n_sites=rng.randint(2, 4), max_spans=3, whole_km=True, max_km=120,
                            user_amps=rng.random() < 0.5, per_degree=False)
+    if kind == 'penalty' and rng.random() < 0.5:
+        # negative-dispersion fibre: the accumulated CD can fall below the first point of a penalty table
+        ej['Fiber'].append({'type_variety': 'NDF', 'dispersion': -6e-06, 'effective_area': 72e-12, 'pmd_coef': 1.265e-15})
+        for e in tj['elements']:
+            if e['type'] == 'Fiber' and rng.random() < 0.7:
+                e['type_variety'] = 'NDF'
     equipment = G.make_equipment(ej)
     network = G.make_network(tj, equipment)
     SimParams.set_params({})
